@@ -22,6 +22,10 @@ def rand_attrs(rng, prefix=""):
     out = {}
     for k, v in rng.sample(ATTR_POOL, rng.randint(0, 3)):
         out[prefix + k] = v
+    if rng.random() < 0.15:
+        # metadata under a name the attribute protocol does not reach (a class member, an underscore name): still metadata
+        k, v = rng.choice([("shape", "round"), ("values", "v"), ("_hid", 3), ("size", 4), ("dims", "d")])
+        out[k] = v
     return out
 
 
